@@ -1071,8 +1071,9 @@ pub extern "C" fn send_time_limit(fd: c_int) -> u64 {
                 panic!("getsockopt failed: {error}");
             }
             let time_limit = get_time_limit(&tv);
-            assert!(SEND_TIME_LIMIT.insert(fd, time_limit).is_none());
-            time_limit
+            // another thread may have filled (or setsockopt may have updated)
+            // the entry since the lookup above, then that value stays
+            *SEND_TIME_LIMIT.entry(fd).or_insert(time_limit)
         },
         |v| *v.value(),
     )
@@ -1100,8 +1101,9 @@ pub extern "C" fn recv_time_limit(fd: c_int) -> u64 {
                 panic!("getsockopt failed: {error}");
             }
             let time_limit = get_time_limit(&tv);
-            assert!(RECV_TIME_LIMIT.insert(fd, time_limit).is_none());
-            time_limit
+            // another thread may have filled (or setsockopt may have updated)
+            // the entry since the lookup above, then that value stays
+            *RECV_TIME_LIMIT.entry(fd).or_insert(time_limit)
         },
         |v| *v.value(),
     )
